@@ -199,15 +199,24 @@ impl<T: Qcow2IoOps> Qcow2Dev<T> {
             let cls = HostCluster(host_cluster);
             let rt_e = self.get_reftable_entry(cls.rt_index(info)).await;
 
+            // No refcount block covers this cluster, so the image is
+            // inconsistent (a forged table entry pointing anywhere). Going
+            // on would take whatever is at offset 0 - the header - for a
+            // refcount block slice, decrement inside it and write it back.
+            if rt_e.is_zero() {
+                return Err("free_clusters: cluster isn't covered by any refcount block".into());
+            }
+
             let rb_handle = match self.get_refblock(&cls, &rt_e).await {
                 Ok(handle) => handle,
                 Err(_) => {
+                    // skip what this slice covers (in clusters)
                     let next_cls = cls.rb_slice_host_end(info);
-                    if next_cls - host_cluster >= count as u64 {
+                    let skip = ((next_cls - host_cluster) >> info.cluster_bits()) as usize;
+                    if skip >= count {
                         return Err("Fail to load refblock in freeing cluster".into());
                     }
-                    let skip = next_cls - host_cluster;
-                    count -= skip as usize;
+                    count -= skip;
                     host_cluster = next_cls;
                     continue;
                 }
